@@ -96,6 +96,9 @@ func newTelemetry(stack string) (component.TelemetrySettings, *sinks, error) {
 }
 
 func (s *sinks) close() {
+	if s.tp == nil {
+		return
+	}
 	_ = s.tp.Shutdown(context.Background())
 	_ = s.mp.Shutdown(context.Background())
 }
@@ -156,6 +159,9 @@ func (s *sinks) collect() ([]Entry, error) {
 				out = append(out, en)
 			}
 		}
+	}
+	if s.spans == nil {
+		return out, nil
 	}
 	for _, sp := range s.spans.Ended() {
 		out = append(out, Entry{Msg: sp.Name(), Sink: "span", Scope: setPairs(sp.InstrumentationScope().Attributes)})
